@@ -268,10 +268,10 @@ def run(ctx):
     rng = ctx.rng
     q = ctx.tier == "quick"
     texts = [S.corpus_expr(l) for l in S.load_corpus("C08")]
-    texts += [rnd_json(rng, rng.choice([1, 2, 3, 4])) for _ in range(4000 if q else 120000)]
-    texts += [rnd_number(rng) for _ in range(3000 if q else 80000)]
-    texts += [rnd_string(rng) for _ in range(500 if q else 10000)]
-    texts += [malformed(rng) for _ in range(1000 if q else 30000)]
+    texts += [rnd_json(rng, rng.choice([1, 2, 3, 4])) for _ in range(4000 if q else 600000)]
+    texts += [rnd_number(rng) for _ in range(3000 if q else 400000)]
+    texts += [rnd_string(rng) for _ in range(500 if q else 50000)]
+    texts += [malformed(rng) for _ in range(1000 if q else 150000)]
     texts += ["[" * d + "1" + "]" * d for d in (1, 64, 126, 127, 128, 129, 500)]
     if getattr(ctx, "replay", None):
         texts = [ctx.replay["case"]]
